@@ -145,6 +145,24 @@ theorem C07_elim_all_reachable (n : AV.NFA σ α) (hv : n.validate = .ok ()) (ps
       Reach (fun q => (n.eliminateLambda.row q).flatMap fun e => e.2) n.eliminateLambda.init q :=
   elim_reachable ((NFA.validate_eq_ok n).mp hv) ps
 
+/-- The same in terms of words: every state of the result is among the current states after
+reading some word. -/
+theorem C07_elim_all_reachable_by_words (n : AV.NFA σ α) (hv : n.validate = .ok ()) (ps : n.PyShape) :
+    ∀ q ∈ n.eliminateLambda.states,
+      ∃ w, q ∈ n.eliminateLambda.runFrom (n.eliminateLambda.closure n.eliminateLambda.init) w :=
+  elim_reachable_word ((NFA.validate_eq_ok n).mp hv) ps
+
+/-- **C07 for `eliminate_lambda`, in one statement** (DESIGN.md §7): valid, same language,
+no empty-string transition, no unreachable state. -/
+theorem C07_elim (n : AV.NFA σ α) (hv : n.validate = .ok ()) (ps : n.PyShape) :
+    n.eliminateLambda.validate = .ok () ∧
+    (∀ w, n.eliminateLambda.accepts w = n.accepts w) ∧
+    (∀ kv ∈ n.eliminateLambda.trans, ∀ e ∈ kv.2, e.1 ≠ none) ∧
+    (∀ q ∈ n.eliminateLambda.states,
+      Reach (fun q => (n.eliminateLambda.row q).flatMap fun e => e.2) n.eliminateLambda.init q) :=
+  ⟨C07_elim_valid n hv ps, C07_elim_lang n hv ps, (C07_elim_no_epsilon n hv ps).1,
+    C07_elim_all_reachable n hv ps⟩
+
 /-- The result again has the shape of a value built from Python sets and dicts (so the
 conversions compose: e.g. `DFA.from_nfa(n.eliminate_lambda())`). -/
 theorem C07_elim_pyShape (n : AV.NFA σ α) (hv : n.validate = .ok ()) (ps : n.PyShape) :
